@@ -469,7 +469,7 @@ def gen_type(ti, g):
             g.add(ln, {'origin': 'repo', 'file': ti.file, 'line': l0 + i})
 
 
-def generate(unit, canary=False):
+def generate(unit, canary=False, tier='quick'):
     g = Generated()
     for ft in unit.features:
         g.add('#![feature(%s)]' % ft, {'origin': 'prelude'})
